@@ -137,7 +137,7 @@ impl Property for C17 {
         if tier == "thorough" {
             12_000
         } else {
-            800
+            1_200
         }
     }
     fn time_cap_s(&self, tier: &str) -> u64 {
